@@ -290,6 +290,57 @@ func c14TextOptionWords(quick bool) C14Group {
 	return g
 }
 
+// c14TextCounts: the text options COUNT and RCOUNT are maximum numbers (binary field + 1); every boundary value
+// must produce the hold the equivalent binary command produces and be echoed unchanged in the reply.
+func c14TextCounts(quick bool) C14Group {
+	g := C14Group{Name: "text-count-words"}
+	distinct := map[string]bool{}
+	for _, n := range []int{1, 2, 3, 255, 256, 257, 65535, 65536} {
+		for _, r := range []int{1, 2, 3, 255, 256} {
+			g.Evaluations++
+			var msg string
+			rt := vrt.Run(vrt.Options{MaxPoints: 50_000_000}, func() {
+				node := hapi.Factories["n0"](hapi.Config{FastKeys: 4, Concurrent: 1})
+				if err := node.Start(); err != nil {
+					msg = "engine: " + err.Error()
+					return
+				}
+				vrt.AdvanceTo(1300 * ms)
+				tc, _ := wire.Dial(nodeAddr(0))
+				_ = tc.Send(wire.Resp("LOCK", "cnt", "LOCK_ID", "i", "TIMEOUT", "0", "EXPRIED", "50", "COUNT", fmt.Sprint(n), "RCOUNT", fmt.Sprint(r)))
+				rep := strings.Join(tc.TakeText(), "|")
+				ks := node.Snapshot().Key(0, normKey("cnt"))
+				if ks == nil || len(ks.Holds) != 1 {
+					msg = fmt.Sprintf("text LOCK COUNT %d RCOUNT %d: no hold (reply %s)", n, r, rep)
+					return
+				}
+				h := ks.Holds[0]
+				if int(h.Count) != n-1 || int(h.Rcount) != r-1 {
+					msg = fmt.Sprintf("text LOCK COUNT %d RCOUNT %d: the hold has Count %d Rcount %d, the equivalent binary command carries Count %d Rcount %d", n, r, h.Count, h.Rcount, n-1, r-1)
+					return
+				}
+				if !strings.Contains(rep, fmt.Sprintf("$COUNT $%d ", n)) || !strings.Contains(rep, fmt.Sprintf("$RCOUNT $%d", r)) || !strings.Contains(rep, "$LCOUNT $1 ") || !strings.Contains(rep, "$LRCOUNT $1 ") {
+					msg = fmt.Sprintf("text LOCK COUNT %d RCOUNT %d is answered %s: the reply must echo COUNT %d and RCOUNT %d (binary result fields Count %d, Rcount %d) with LCOUNT 1 / LRCOUNT 1", n, r, rep, n, r, n-1, r-1)
+				}
+				distinct[rep] = true
+			})
+			if rt.Crash != nil {
+				msg = "crash: " + rt.Crash.Value
+			}
+			if strings.HasPrefix(msg, "engine:") {
+				g.Violations = append(g.Violations, explore.Violation{Sig: "engine", Msg: msg})
+				return g
+			}
+			if msg != "" && len(g.Violations) < 4 {
+				g.Violations = append(g.Violations, explore.Violation{Sig: "C14:text-count-word-differs-from-binary", Msg: msg})
+			}
+		}
+	}
+	g.Samples = append(g.Samples, "COUNT in {1,2,3,255,256,257,65535,65536} x RCOUNT in {1,2,3,255,256}")
+	g.Distinct = len(distinct)
+	return g
+}
+
 func init() {
 	Registry["C14"] = func(c *Ctx) int {
 		cp := c14ConnPlan(c.Quick())
@@ -300,7 +351,7 @@ func init() {
 			return cp.ReplayFile(c, c.Args[1])
 		}
 		groups := RunC14Codec(c.Quick())
-		groups = append(groups, c14TextVsBinary(c.Quick()), c14TextReuse(c.Quick()), c14TextOptionWords(c.Quick()))
+		groups = append(groups, c14TextVsBinary(c.Quick()), c14TextReuse(c.Quick()), c14TextOptionWords(c.Quick()), c14TextCounts(c.Quick()))
 		evals, distinct, viol := 0, 0, 0
 		var samples []interface{}
 		per := map[string]interface{}{}
